@@ -136,6 +136,17 @@ theorem roundtrip_whole_fallback_partial (G : Grammar) (ok : Lemmas.Grammar.Ok G
   obtain ⟨w, t, e1, e2, hk⟩ := Lemmas.whole_roundtrip_authority G ok okp a b aa ha hb haa hl
   exact ⟨w, t, by rw [hw, e1], e2, hk⟩
 
+/-- … and for every target without authority whose path is absolute and whose first normalised
+segment is not empty (`s:/a/b` relative to `s://h/c`, to `s:x/y`, to `t:/a` …) -/
+theorem roundtrip_whole_fallback_noauth_partial (G : Grammar) (ok : Lemmas.Grammar.Ok G) (okp : Lemmas.Grammar.OkPath G)
+    (a b : Text) (ha : RE.Matches G.full a)
+    (haa : (split a).authority = none) (hpa : isAbs (split a).path = true)
+    (hhd : (nsegs (split a).path).head? ≠ some [])
+    (hw : Ref.relative_to a b = Ref.whole a) :
+    ∃ r t, Ref.relative_to a b = some r ∧ Ref.resolve r b = some t ∧ key t = key a := by
+  obtain ⟨w, t, e1, e2, hk⟩ := Lemmas.whole_roundtrip_noauth_abs G ok okp a b ha haa hpa hhd
+  exact ⟨w, t, by rw [hw, e1], e2, hk⟩
+
 /-- an authority on the target's side only: the fallback is taken -/
 theorem relative_to_authority_one_sided (G : Grammar) (ok : Lemmas.Grammar.Ok G) (a b aa : Text)
     (ha : RE.Matches G.reference a) (hb : RE.Matches G.reference b)
